@@ -56,7 +56,9 @@ class Monitors(object):
 def export_one(spec, kind, mons, parse=True):
     """kind: 'svg' | 'tikz'.  Returns a result dict; never raises for library errors."""
     from labella.timeline import TimelineSVG, TimelineTex
+    from vmon.budget import ensure_tick_budget
 
+    ensure_tick_budget()  # a changed tree must not be able to make one export build billions of tick instants
     cls = TimelineSVG if kind == "svg" else TimelineTex
     res = {"kind": kind, "exc": None, "doc": None, "picture": None, "parse_error": None, "domain": None, "labels": None, "timeline": None}
     try:
